@@ -63,6 +63,30 @@ Theorem C03_known_vector_signs_refuted : forall t, In t vector_uniform_refuted -
 Proof. exact (proj1 (Forall_forall _ _) vector_signs_refuted). Qed.
 Print Assumptions C03_known_vector_signs_refuted.
 
+(* F9 on the Coq side (generated only while known_findings.txt lists key elem=ElementQuadP(p>=3):value-jump, p <= 5):
+   two quadrilaterals sharing an edge, the second one listed with a cyclic shift — e.g. cells [0,1,4,3] and [4,1,2,5]
+   (= [1,2,5,4] shifted) of the 2 x 1 grid p = [[0,1,2,0,1,2],[0,0,0,1,1,1]]: the shared edge {1,4} is local facet 1 =
+   [1,2] of the first cell (local coordinate increasing 1 -> 4) and local facet 0 = [0,1] of the second (increasing
+   4 -> 1).  gid / grev are the identity and s |-> 1 - s with the induced permutation of the edge's
+   DOFs (vertices swapped, edge DOFs kept, as the global numbering identifies them) — checked by shift_jump_check.
+   There EXIST a coefficient vector and a point of the edge (with values of the formal scales) at which the two
+   one-sided traces differ: the discrete function is discontinuous.  ElementQuadP(1), ElementQuadP(2) are in
+   traced_elements and h1_symmetric_elements: for them (and every other H1 class) continuity is the positive theorem. *)
+Theorem C03_quadp_shift_refuted :
+  forall t gid grev coef pt, In (t, (gid, grev, coef, pt)) quadp_shift_refuted ->
+    exists (c x : list Q),
+      is_reversal_perm (y_perm grev) = true /\ peqb (nthp (y_map grev) 0) (psub (pconst 1) (pvar 0)) = true /\
+      ~ qeval (shift_jump t 1 0 gid grev c) (lpt x) == 0.
+Proof.
+  intros t gid grev coef pt Hin. exists coef, pt.
+  pose proof (proj1 (Forall_forall _ _) quadp_shift_refuted_ok _ Hin) as H. cbv beta iota in H.
+  unfold shift_refuted_ok, shift_jump_check in H.
+  repeat (apply andb_true_iff in H; destruct H as [H ?]).
+  split; [assumption|]. split; [assumption|].
+  intros E. apply Qeq_bool_iff in E. rewrite E in *. discriminate.
+Qed.
+Print Assumptions C03_quadp_shift_refuted.
+
 (* (b) sorted cells: MeshTri1 sorts every column of t (T2: sort_t = True, __post_init__ starts with the sort); for
    every cell with pairwise distinct vertices the sorted column is strictly ascending and keeps the vertices, every
    local facet of RefTri (T1) then has strictly ascending global vertices ... *)
